@@ -28,7 +28,7 @@ m = {
         "guard": "verif",
         "enable": "go build -tags verif (harness module /verif with `replace github.com/crate-crypto/go-ipa => /repo`); flavours: -race, -tags verif,noadx",
         "baseline_off_cmd": "cd /repo && GOFLAGS=-mod=mod GOPROXY=off GOSUMDB=off GOTOOLCHAIN=local go test -vet=off -count=1 -timeout 25m ./...",
-        "source_commits": ["57366c4", "a4f5fcf"],
+        "source_commits": ["57366c4", "a4f5fcf", "248af53"],
         "add_only": True,
     },
     "engines": [{"name": "vmon", "path": "/verif/cmd/vmon", "serves_properties": sorted(impl.keys()),
